@@ -1,4 +1,5 @@
 import RtVerif.Model.C06
+import RtVerif.Props.C07
 /-  Helper lemmas for C06 (the property theorems are in Props/C06.lean). -/
 namespace RtVerif.C06
 open RtVerif Bytes
@@ -279,5 +280,405 @@ theorem gateNF_meets_spec {pmt : Pmt} (hp : PmtOK pmt) {api : Api} (hwf : WF api
               cases this
       · simp [ha]
   · simp [hb]
+
+/-! ## the whole functions (head + response-format check + binder) -/
+
+/-- the response-format check lets the request through -/
+def tailPass (t : TailIn) : Bool := t.produces.isEmpty || !noFormat t.specs t.produces
+
+theorem tRespCheck_nil (t : TailIn) : tRespCheck [] t = if tailPass t then [] else [.notAcceptable] := by
+  unfold tRespCheck tailPass
+  cases t.produces.isEmpty <;> cases noFormat t.specs t.produces <;> simp
+
+theorem uRespCheck_nil (t : TailIn) : uRespCheck [] t = if tailPass t then [] else [.notAcceptable] := by
+  unfold uRespCheck tailPass
+  cases t.produces.isEmpty <;> cases noFormat t.specs t.produces <;> simp
+
+theorem tRespCheck_cons (e : FErr) (es : List FErr) (t : TailIn) : tRespCheck (e :: es) t = e :: es := by
+  simp [tRespCheck]
+
+theorem uRespCheck_cons (e : FErr) (es : List FErr) (t : TailIn) : uRespCheck (e :: es) t = e :: es := by
+  simp [uRespCheck]
+
+/-- the two transcriptions of the response-format check are the same function -/
+theorem tRespCheck_eq_uRespCheck (res : List FErr) (t : TailIn) : tRespCheck res t = uRespCheck res t := by
+  cases res with
+  | nil => rw [tRespCheck_nil, uRespCheck_nil]
+  | cons e es => rw [tRespCheck_cons, uRespCheck_cons]
+
+/-! ### the shape of the two heads -/
+
+theorem typedRaw_cases (pmt : Pmt) (api : Api) (h : ReqHead) :
+    (hasBody h = false ∧ typedRaw pmt api h = none) ∨
+    (hasBody h = true ∧ ((∃ k, typedRaw pmt api h = some ⟨[], some k⟩) ∨
+      (∃ e, typedRaw pmt api h = some ⟨[e], none⟩))) := by
+  unfold typedRaw
+  by_cases hb : hasBody h
+  · right
+    refine ⟨hb, ?_⟩
+    simp only [hb, ↓reduceIte]
+    cases runtimeContentType pmt h with
+    | err => exact Or.inr ⟨.badRequest, rfl⟩
+    | ok ct =>
+      simp only [tAfterCT, tStep]
+      split
+      · cases hc : routeConsumer api ct with
+        | none => exact Or.inr ⟨.noConsumer, rfl⟩
+        | some k => exact Or.inl ⟨k, rfl⟩
+      · exact Or.inr ⟨.unsupported, rfl⟩
+  · left; simp [hb]
+
+theorem untypedRaw_cases (pmt : Pmt) (api : Api) (h : ReqHead) (hne : ∀ x t, pmt x = some t → t ≠ []) :
+    (hasBody h = false ∧ untypedRaw pmt api h = none) ∨
+    (hasBody h = true ∧ ((∃ k, untypedRaw pmt api h = some ⟨[], some k⟩) ∨
+      (∃ e es sel, untypedRaw pmt api h = some ⟨e :: es, sel⟩))) := by
+  unfold untypedRaw
+  by_cases hb : hasBody h
+  · right
+    refine ⟨hb, ?_⟩
+    simp only [hb, ↓reduceIte, uStep1, runtimeContentType_eq]
+    cases hp : pmt (effCT h) with
+    | none => exact Or.inr ⟨.badRequest, [], none, by simp [uStep2, uStep3]⟩
+    | some t =>
+      have htne : t.isEmpty = false := by
+        have := hne _ _ hp
+        cases t with
+        | nil => exact absurd rfl this
+        | cons a b => rfl
+      simp only [uStep2, uStep3, htne, List.isEmpty_nil, ↓reduceIte]
+      by_cases hv : validateContentType pmt (routeConsumes api) t
+      · simp only [hv, ↓reduceIte]
+        cases hc : routeConsumer api t with
+        | none => exact Or.inr ⟨.noConsumer, [], none, by simp⟩
+        | some k => exact Or.inl ⟨k, rfl⟩
+      · simp only [hv, Bool.false_eq_true, ↓reduceIte, List.nil_append]
+        cases hc : routeConsumer api t with
+        | none => exact Or.inr ⟨.unsupported, [.noConsumer], none, by simp⟩
+        | some k => exact Or.inr ⟨.unsupported, [], some k, rfl⟩
+  · left; simp [hb]
+
+theorem outOfCode_code (e : Err) : outOfCode e.code = GateOut.ofErr e := by
+  cases e <;> rfl
+
+theorem code_ne_406 (e : Err) : (e.code != 406) = true := by
+  cases e <;> rfl
+
+/-! ### the Accept header admits a declared type ⇔ the negotiation finds a format -/
+
+theorem firstMax_eq_none {l : List C07.Cand} : C07.firstMax l = none ↔ l = [] := by
+  cases l with
+  | nil => simp [C07.firstMax]
+  | cons c cs =>
+    simp only [C07.firstMax, reduceCtorEq, iff_false]
+    cases C07.firstMax cs with
+    | none => simp
+    | some m => simp only; split <;> simp
+
+theorem candsFor_eq_nil (specs : List C07.Spec) (o : Bytes) :
+    C07.candsFor specs o = [] ↔ ∀ sp ∈ specs, rangeAdmits o sp = false := by
+  unfold C07.candsFor rangeAdmits
+  rw [List.filterMap_eq_nil_iff]
+  constructor
+  · intro hall sp hsp
+    have := hall sp hsp
+    cases hz : sp.q.isZero with
+    | true => simp
+    | false =>
+      rw [hz] at this
+      simp only [Bool.false_eq_true, ↓reduceIte, Option.map_eq_none_iff] at this
+      simp [this]
+  · intro hall sp hsp
+    have := hall sp hsp
+    cases hz : sp.q.isZero with
+    | true => simp
+    | false =>
+      rw [hz] at this
+      simp only [Bool.not_false, Bool.true_and] at this
+      simp only [Bool.false_eq_true, ↓reduceIte, Option.map_eq_none_iff]
+      cases hm : C07.matchWild sp.value (C07.normalizeOffer o) with
+      | none => rfl
+      | some w => rw [hm] at this; simp at this
+
+theorem candidates_eq_nil (specs : List C07.Spec) (offers : List Bytes) :
+    C07.candidates specs offers = [] ↔ ∀ o ∈ offers, ∀ sp ∈ specs, rangeAdmits o sp = false := by
+  unfold C07.candidates
+  rw [List.flatMap_eq_nil_iff]
+  constructor
+  · intro hall o ho; exact (candsFor_eq_nil specs o).mp (hall o ho)
+  · intro hall o ho; exact (candsFor_eq_nil specs o).mpr (hall o ho)
+
+theorem acceptAdmits_false_iff (specs : List C07.Spec) (declared : List Bytes) :
+    acceptAdmits specs declared = false ↔ specs ≠ [] ∧ C07.candidates specs declared = [] := by
+  unfold acceptAdmits
+  rw [candidates_eq_nil]
+  cases specs with
+  | nil => simp
+  | cons sp sps =>
+    simp only [List.isEmpty_cons, Bool.false_or, ne_eq, reduceCtorEq, not_false_eq_true, true_and]
+    constructor
+    · intro hf o ho sp' hsp'
+      cases hr : rangeAdmits o sp' with
+      | false => rfl
+      | true =>
+        have : (declared.any fun o => (sp :: sps).any (rangeAdmits o)) = true :=
+          List.any_eq_true.mpr ⟨o, ho, List.any_eq_true.mpr ⟨sp', hsp', hr⟩⟩
+        rw [hf] at this; cases this
+    · intro hall
+      cases hr : (declared.any fun o => (sp :: sps).any (rangeAdmits o)) with
+      | false => rfl
+      | true =>
+        obtain ⟨o, ho, h2⟩ := List.any_eq_true.mp hr
+        obtain ⟨sp', hsp', h3⟩ := List.any_eq_true.mp h2
+        rw [hall o ho sp' hsp'] at h3; cases h3
+
+/-- For a non-empty list of non-empty offers, the negotiation with default `""` yields `""` exactly
+when the header admits none of them. -/
+theorem noFormat_iff (specs : List C07.Spec) (offers : List Bytes) (hne : offers ≠ [])
+    (hnn : ([] : Bytes) ∉ offers) : noFormat specs offers = !acceptAdmits specs offers := by
+  unfold noFormat
+  rw [C07.negotiate_eq_spec]
+  cases hoff : offers with
+  | nil => exact absurd hoff hne
+  | cons first rest =>
+    have hfirst : first.isEmpty = false := by
+      cases first with
+      | nil => exact absurd (by rw [hoff]; simp) hnn
+      | cons a b => rfl
+    unfold C07.specChoice
+    simp only
+    by_cases hs : specs.isEmpty
+    · simp [hs, hfirst, acceptAdmits]
+    · simp only [hs, Bool.false_eq_true, ↓reduceIte]
+      have hs' : specs ≠ [] := by intro e; rw [e] at hs; simp at hs
+      cases hm : C07.firstMax (C07.candidates specs (first :: rest)) with
+      | none =>
+        have hc := firstMax_eq_none.mp hm
+        have : acceptAdmits specs (first :: rest) = false := (acceptAdmits_false_iff _ _).mpr ⟨hs', hc⟩
+        simp [this]
+      | some c =>
+        have hmem := (C07.mem_candidates (C07.firstMax_mem hm)).1
+        have hcne : c.raw.isEmpty = false := by
+          cases hr : c.raw with
+          | nil => rw [hr, ← hoff] at hmem; exact absurd hmem hnn
+          | cons a b => rfl
+        have : acceptAdmits specs (first :: rest) = true := by
+          cases ha : acceptAdmits specs (first :: rest) with
+          | true => rfl
+          | false =>
+            have := ((acceptAdmits_false_iff _ _).mp ha).2
+            rw [this] at hm; simp [C07.firstMax] at hm
+        simp [this, hcne]
+
+/-- `acceptAdmits` looks at the declared types as a set. -/
+theorem acceptAdmits_congr (specs : List C07.Spec) {a b : List Bytes} (h : ∀ x, x ∈ a ↔ x ∈ b) :
+    acceptAdmits specs a = acceptAdmits specs b := by
+  unfold acceptAdmits
+  congr 1
+  rw [Bool.eq_iff_iff, List.any_eq_true, List.any_eq_true]
+  constructor
+  · rintro ⟨x, hx, hp⟩; exact ⟨x, (h x).mp hx, hp⟩
+  · rintro ⟨x, hx, hp⟩; exact ⟨x, (h x).mpr hx, hp⟩
+
+theorem isEmpty_congr {a b : List Bytes} (h : ∀ x, x ∈ a ↔ x ∈ b) : a.isEmpty = b.isEmpty := by
+  cases a with
+  | nil =>
+    cases b with
+    | nil => rfl
+    | cons y ys => exact absurd ((h y).mpr (by simp)) (by simp)
+  | cons x xs =>
+    cases b with
+    | nil => exact absurd ((h x).mp (by simp)) (by simp)
+    | cons y ys => rfl
+
+/-- The response-format check, read through the Spec's notions. -/
+theorem tailPass_eq_admits (t : TailIn) (declared : List Bytes) (hmem : ∀ x, x ∈ t.produces ↔ x ∈ declared)
+    (hnn : ([] : Bytes) ∉ t.produces) :
+    tailPass t = (declared.isEmpty || acceptAdmits t.specs declared) := by
+  unfold tailPass
+  rw [← isEmpty_congr hmem, ← acceptAdmits_congr t.specs hmem]
+  cases hp : t.produces with
+  | nil => simp
+  | cons o os =>
+    have hne : t.produces ≠ [] := by rw [hp]; simp
+    rw [← hp, noFormat_iff t.specs t.produces hne hnn]
+    simp [hp]
+
+/-! ### `route.Produces` and the declared types -/
+
+theorem routeProduces_mem {opProduces : List Bytes} {dprod : Bytes} (hwf : WFp opProduces dprod = true)
+    (x : Bytes) : x ∈ routeProduces opProduces dprod ↔ x ∈ declaredTypes opProduces dprod := by
+  unfold routeProduces declaredTypes
+  unfold WFp at hwf
+  simp only [Bool.and_eq_true, List.all_eq_true, beq_iff_eq, Bool.not_eq_true'] at hwf
+  obtain ⟨hall, hd⟩ := hwf
+  by_cases hde : dprod.isEmpty
+  · simp [hde]
+  · by_cases hc : containsCI opProduces dprod
+    · simp only [hde, hc, Bool.not_false, Bool.not_true, Bool.and_false, Bool.false_eq_true, ↓reduceIte,
+        List.mem_append, List.mem_cons, List.not_mem_nil, or_false]
+      obtain ⟨e, he, hle⟩ := (containsCI_iff _ _).mp hc
+      have : e = dprod := by rw [← (hall e he).1, hle, hd]
+      constructor
+      · exact Or.inl
+      · rintro (h | h)
+        · exact h
+        · rw [h, ← this]; exact he
+    · simp [hde, hc]
+
+theorem routeProduces_no_empty {opProduces : List Bytes} {dprod : Bytes} (hwf : WFp opProduces dprod = true) :
+    ([] : Bytes) ∉ routeProduces opProduces dprod := by
+  unfold WFp at hwf
+  simp only [Bool.and_eq_true, List.all_eq_true, beq_iff_eq, Bool.not_eq_true'] at hwf
+  obtain ⟨hall, _⟩ := hwf
+  unfold routeProduces
+  intro hm
+  have hop : ([] : Bytes) ∉ opProduces := fun h => by have := (hall [] h).2; simp at this
+  split at hm
+  · rename_i hc
+    simp only [List.mem_append, List.mem_cons, List.not_mem_nil, or_false] at hm
+    rcases hm with hm | hm
+    · exact hop hm
+    · rw [← hm] at hc; simp at hc
+  · exact hop hm
+
+/-! ### what is seen of the two whole functions, by the outcome of the gate -/
+
+theorem tBind_obs_pass (sel : Option Nat) (b : Option BinderRes) :
+    obsOfFull (tBind [] sel b) =
+      match b with
+      | none => ⟨[], false, false, sel, none⟩
+      | some .ok => ⟨[], false, true, sel, sel⟩
+      | some (.fail c) => ⟨[c], true, true, sel, none⟩ := by
+  cases b with
+  | none => rfl
+  | some r => cases r <;> rfl
+
+theorem tBind_obs_refused (e : FErr) (es : List FErr) (sel : Option Nat) (b : Option BinderRes) :
+    obsOfFull (tBind (e :: es) sel b) = ⟨(e :: es).map FErr.code, false, false, sel, none⟩ := by
+  cases b with
+  | none => rfl
+  | some r => rfl
+
+theorem uBind_obs_pass (sel : Option Nat) : obsOfFull (uBind [] sel) = ⟨[], false, true, sel, sel⟩ := rfl
+
+theorem uBind_obs_refused (e : FErr) (es : List FErr) (sel : Option Nat) :
+    obsOfFull (uBind (e :: es) sel) = ⟨(e :: es).map FErr.code, false, false, sel, none⟩ := rfl
+
+
+/-- what is seen of an entry point whose gate let the request through (or skipped it) -/
+def tailObs (sel : Option Nat) (t : TailIn) (b : Option BinderRes) : FullObs :=
+  if tailPass t then
+    match b with
+    | none => ⟨[], false, false, sel, none⟩
+    | some .ok => ⟨[], false, true, sel, sel⟩
+    | some (.fail c) => ⟨[c], true, true, sel, none⟩
+  else ⟨[406], false, false, sel, none⟩
+
+theorem typedFull_obs (pmt : Pmt) (api : Api) (h : ReqHead) (t : TailIn) :
+    (carriesBody h = false ∧ gateTyped pmt api h = .skipped ∧
+      obsOfFull (typedFull pmt api h t) = tailObs none t t.binder) ∨
+    (carriesBody h = true ∧ ∃ k, gateTyped pmt api h = .consumer k ∧
+      obsOfFull (typedFull pmt api h t) = tailObs (some k) t t.binder) ∨
+    (carriesBody h = true ∧ ∃ e, gateTyped pmt api h = GateOut.ofErr e ∧
+      obsOfFull (typedFull pmt api h t) = ⟨[e.code], false, false, none, none⟩) := by
+  unfold gateTyped typedFull
+  rw [← hasBody_eq_carries]
+  rcases typedRaw_cases pmt api h with ⟨hb, hr⟩ | ⟨hb, ⟨k, hr⟩ | ⟨e, hr⟩⟩
+  · left
+    refine ⟨hb, by rw [hr]; rfl, ?_⟩
+    rw [hr]
+    simp only [rawErrs, rawSel, tRespCheck_nil, tailObs]
+    cases tailPass t
+    · simp [tBind_obs_refused, FErr.code]
+    · simp [tBind_obs_pass]
+  · right; left
+    refine ⟨hb, k, by rw [hr]; rfl, ?_⟩
+    rw [hr]
+    simp only [rawErrs, rawSel, List.map_nil, tRespCheck_nil, tailObs]
+    cases tailPass t
+    · simp [tBind_obs_refused, FErr.code]
+    · simp [tBind_obs_pass]
+  · right; right
+    refine ⟨hb, e, by rw [hr]; rfl, ?_⟩
+    rw [hr]
+    simp only [rawErrs, rawSel, List.map_cons, List.map_nil, tRespCheck_cons, tBind_obs_refused, FErr.code]
+
+theorem untypedFull_obs (pmt : Pmt) (api : Api) (h : ReqHead) (t : TailIn)
+    (hne : ∀ x t, pmt x = some t → t ≠ []) :
+    (carriesBody h = false ∧ gateUntyped pmt api h = .skipped ∧
+      obsOfFull (untypedFull pmt api h t) = tailObs none t (some .ok)) ∨
+    (carriesBody h = true ∧ ∃ k, gateUntyped pmt api h = .consumer k ∧
+      obsOfFull (untypedFull pmt api h t) = tailObs (some k) t (some .ok)) ∨
+    (carriesBody h = true ∧ ∃ (e : Err) (es : List Err) (sel : Option Nat), gateUntyped pmt api h = GateOut.ofErr e ∧
+      obsOfFull (untypedFull pmt api h t) = ⟨e.code :: es.map Err.code, false, false, sel, none⟩) := by
+  unfold gateUntyped untypedFull
+  rw [← hasBody_eq_carries]
+  rcases untypedRaw_cases pmt api h hne with ⟨hb, hr⟩ | ⟨hb, ⟨k, hr⟩ | ⟨e, es, sel, hr⟩⟩
+  · left
+    refine ⟨hb, by rw [hr]; rfl, ?_⟩
+    rw [hr]
+    simp only [rawErrs, rawSel, uRespCheck_nil, tailObs]
+    cases tailPass t
+    · simp [uBind_obs_refused, FErr.code]
+    · simp [uBind_obs_pass]
+  · right; left
+    refine ⟨hb, k, by rw [hr]; rfl, ?_⟩
+    rw [hr]
+    simp only [rawErrs, rawSel, List.map_nil, uRespCheck_nil, tailObs]
+    cases tailPass t
+    · simp [uBind_obs_refused, FErr.code]
+    · simp [uBind_obs_pass]
+  · right; right
+    refine ⟨hb, e, es, sel, by rw [hr]; rfl, ?_⟩
+    rw [hr]
+    simp only [rawErrs, rawSel, List.map_cons, uRespCheck_cons, uBind_obs_refused, FErr.code, List.map_map]
+    rfl
+
+
+theorem gateSeen_tailObs_none (h : ReqHead) (t : TailIn) (b : Option BinderRes)
+    (hc : carriesBody h = false) : gateSeen h (tailObs none t b) = .skipped := by
+  unfold tailObs gateSeen gateCodes
+  cases tailPass t
+  · simp [obsOut, hc]
+  · cases b with
+    | none => simp [obsOut, hc]
+    | some r => cases r <;> simp [obsOut, hc]
+
+theorem gateSeen_tailObs_some (h : ReqHead) (t : TailIn) (b : Option BinderRes) (k : Nat) :
+    gateSeen h (tailObs (some k) t b) = .consumer k := by
+  unfold tailObs gateSeen gateCodes
+  cases tailPass t
+  · simp [obsOut]
+  · cases b with
+    | none => simp [obsOut]
+    | some r => cases r <;> simp [obsOut]
+
+theorem gateSeen_refused (h : ReqHead) (e : Err) (es : List Nat) (sel : Option Nat) :
+    gateSeen h ⟨e.code :: es, false, false, sel, none⟩ = GateOut.ofErr e := by
+  unfold gateSeen gateCodes
+  simp only [Bool.false_eq_true, ↓reduceIte, List.filter_cons, code_ne_406, obsOut, outOfCode_code]
+
+/-- the Spec on what is seen past the gate -/
+theorem specFull_tailObs (pmt : Pmt) (api : Api) (h : ReqHead) (t : TailIn) (declared : List Bytes)
+    (b : Option BinderRes) (sel : Option Nat) (g : GateOut)
+    (hg : gateSeen h (tailObs sel t b) = g) (hsel : consumerRan g = sel)
+    (hpass : g = .skipped ∨ ∃ k, g = .consumer k)
+    (hs : Spec pmt api h g = true)
+    (htp : tailPass t = (declared.isEmpty || acceptAdmits t.specs declared)) :
+    SpecFull pmt api h t.specs declared b (tailObs sel t b) = true := by
+  unfold SpecFull
+  rw [hg, hs]
+  clear hg hs
+  subst hsel
+  rcases hpass with rfl | ⟨k, rfl⟩
+  all_goals
+    simp only [Bool.true_and, consumerRan]
+    unfold tailObs
+    rw [htp]
+    cases declared.isEmpty <;> cases acceptAdmits t.specs declared <;>
+      (cases b with
+       | none => simp
+       | some r => cases r <;> simp)
+
 
 end RtVerif.C06
